@@ -1,8 +1,9 @@
 (* C08 -- channel = n bounds the queue; channel = 0 or absent never blocks callers.
    Statements only; proofs live in Runtime/ActorInv.v. *)
-From Coq Require Import List Arith.
+From Coq Require Import List Arith NArith.
+From Coq Require String Ascii.
 Import ListNotations.
-From IT Require Import Sdpl.IR Sdpl.Elab Sdpl.Wf Runtime.Actor Runtime.ActorInv Gen.Channel.
+From IT Require Import Sdpl.IR Sdpl.Elab Sdpl.Wf Runtime.Actor Runtime.ActorInv Gen.Channel Gen.Literal.
 
 Section C08.
 Context {A V : Type} (sem : nat -> A -> list V -> option (A * V)) (sem_slf : nat -> A -> list V -> V) (dv : V).
@@ -54,6 +55,32 @@ Proof. exact member_inherit_override. Qed.
 Theorem C08_ctor_table : forall l c, l <> LibOther -> cap_of_ctor (mpsc_ctor l c) = cap_of_chan c.
 Proof. exact ctor_table. Qed.
 
+(* ---- the literal after `channel =` (Gen/Literal.v): only its value matters ---- *)
+Theorem C08_literal_value_decides : forall cur s k, lit_value s = Some k ->
+  literal_chan cur s = Some (if (0 <? k)%N then Buffer k else Unbounded).
+Proof. exact literal_chan_by_value. Qed.
+
+Theorem C08_literal_cap : forall s, option_map cap_of_chan (literal_chan Unbounded s) = literal_cap s.
+Proof. exact literal_cap_chan. Qed.
+
+(* `_` separators between digits do not change what is scanned *)
+Theorem C08_literal_separators : forall base cs acc nd,
+  (forall c, In c cs -> is_us c = true \/ digit_in base c <> None) ->
+  scan base cs acc nd = scan base (filter (fun c => negb (is_us c)) cs) acc nd.
+Proof. exact scan_separators. Qed.
+
+(* an integer type suffix does not change the value *)
+Theorem C08_literal_suffix_irrelevant : forall base ds sfx acc,
+  (forall c, In c ds -> is_us c = true \/ digit_in base c <> None) ->
+  In sfx suffixes ->
+  match String.list_ascii_of_string sfx with c :: _ => is_us c = false /\ digit_in base c = None | [] => False end ->
+  finish (scan base (ds ++ String.list_ascii_of_string sfx) acc 0) = finish (scan base ds acc 0).
+Proof. exact suffix_irrelevant. Qed.
+
+(* reading only the leading decimal digits of the text is a different function: `0x2` has value 2 and leading decimal digits 0 *)
+Theorem C08_literal_leading_decimal_refuted : exists s k, lit_value s = Some k /\ (0 < k)%N /\ leading_decimal s = 0%N.
+Proof. exact leading_decimal_refuted. Qed.
+
 Print Assumptions C08_bound.
 Print Assumptions C08_option_to_cap.
 Print Assumptions C08_member_inherit_override.
@@ -62,3 +89,8 @@ Print Assumptions C08_blocked_waits.
 Print Assumptions C08_unblocked_enqueues.
 Print Assumptions C08_not_lost.
 Print Assumptions C08_unbounded_never_waits.
+Print Assumptions C08_literal_value_decides.
+Print Assumptions C08_literal_cap.
+Print Assumptions C08_literal_separators.
+Print Assumptions C08_literal_suffix_irrelevant.
+Print Assumptions C08_literal_leading_decimal_refuted.
